@@ -291,7 +291,8 @@ func ttxGenStreamMode(r *fw.Rand, tablesOnce bool) ttxStream {
 	distractorUnits := func(sameMag bool, subtitleFlag bool) [][]byte {
 		m, p := distractor(sameMag)
 		var us [][]byte
-		hdr := ttxHeader(p, ttxHeaderFlags{subtitle: subtitleFlag, serial: serial, charset: r.Intn(8)})
+		// (a newsflash page is not a subtitle page: it is never the one found when no page is given)
+		hdr := ttxHeader(p, ttxHeaderFlags{subtitle: subtitleFlag, newsflash: r.P(1, 3), serial: serial, charset: r.Intn(8)})
 		if r.P(1, 4) {
 			// a data page whose number has a hexadecimal digit (8A5, 1F0 ...); FF is the time-filling header and excluded,
 			// and so is a number the library's decimal reading tens*10+units would take for the selected page
@@ -396,7 +397,7 @@ func ttxGenStreamMode(r *fw.Rand, tablesOnce bool) ttxStream {
 		return c
 	}
 	for _, in := range insts {
-		h := ttxUnit(0x03, 0xe4, mag, 0, ttxHeader(page, ttxHeaderFlags{erase: in.erase, subtitle: flagged, serial: serial, charset: in.charset}))
+		h := ttxUnit(0x03, 0xe4, mag, 0, ttxHeader(page, ttxHeaderFlags{erase: in.erase, subtitle: flagged, newsflash: r.P(1, 6), serial: serial, charset: in.charset}))
 		if r.P(1, 6) {
 			h = flip(h)
 		}
